@@ -32,6 +32,11 @@ U == CASE UName = "small1" -> AtomsSmall \cup Containers(AtomsSmall, Hashable(At
                                            D(<<VPair(VStr("a"), I), VPair(VStr("b"), I)>>),
                                            \* string keys that cannot be fields of a class-syntax TypedDict
                                            D(<<VPair(VStr("content-type"), I)>>), D(<<VPair(VStr("class"), S), VPair(VStr("a"), I)>>),
+                                           \* identifier keys outside ASCII ({u+XXXX} stands for the character: the harness writes
+                                           \* the micro sign, the fi ligature next to plain "field", a fullwidth x) - equal only to
+                                           \* themselves, whatever Unicode normalisation would make of them
+                                           D(<<VPair(VStr("{u+00b5}s"), I)>>), D(<<VPair(VStr("{u+fb01}eld"), I), VPair(VStr("field"), S)>>),
+                                           D(<<VPair(VStr("{u+ff58}"), I), VPair(VStr("a"), S)>>),
                                            \* a key that is NOT a string but hashes and compares like the string "a"
                                            D(<<VPair(VAtom("mtfx.shapes.StrLike"), I)>>)}
                                   Two == {<<x, y>> : x \in Pool, y \in Pool}
